@@ -633,7 +633,8 @@ def z3_fields(prog, ctx, wc, trees):
         init = prog.func(ISO, cls + ".__init__")
         fields = _init_fields(init)
         written = set()
-        for op, fld, node in trees[cls]:
+        opt_fields = [f_ for seg in wc.optional.get(cls + ".serialize", []) for f_, _n in seg["fields"]]
+        for fld in [fld for _op, fld, _node in trees[cls]] + opt_fields:
             names = fld if isinstance(fld, tuple) else (fld,)
             for f in names:
                 if f:
@@ -828,6 +829,130 @@ def _called_after(ps, fn, line, lin):
     return False
 
 
+def z6_optional(prog, ctx, wc):
+    """Optional segments (a flag, then fields that are only written when the flag is set): whenever the writer's condition is false,
+    every field of the segment must already equal the value the reader fills in for it."""
+    import itertools
+    n = 0
+    for qual, segs in sorted(wc.optional.items()):
+        for seg in segs:
+            if seg["side"] != "writer":
+                continue
+            cls = qual.split(".")[0]
+            rsegs = [x for x in wc.optional.get(cls + ".deserialize", []) if x["side"] == "reader"]
+            n += 1
+            if not rsegs:
+                ctx.fail("Z6", seg["node"], qual, src(seg["node"].test)[:80], "fields are written only under a condition but %s.deserialize reads "
+                         "them unconditionally" % cls)
+                continue
+            rseg = rsegs[0]
+            defaults = rseg["defaults"]
+            w_fields = sorted({(f_ or "?").split("[")[0].split(".")[0] for f_, _n in seg["fields"]})
+            missing = [f_ for f_ in w_fields if f_ not in defaults]
+            if missing:
+                ctx.fail("Z6", rseg["node"], cls + ".deserialize", "else-branch of the optional segment",
+                         "when the flag is not set the reader leaves %s without a value" % ", ".join(missing))
+                continue
+            # the writer's condition as a boolean function of the atoms  (self.<field> != <default>)
+            f = prog.func(ISO, qual)
+            cond = seg["cond"]
+            meths = prog.methods_of(prog.cls(ISO, cls), inherited=True)
+            for _ in range(4):
+                if isinstance(cond, ast.Name):
+                    defs = [a.value for a in walk_no_nested(f) if isinstance(a, ast.Assign) and len(a.targets) == 1 and src(a.targets[0]) == cond.id]
+                    if len(defs) != 1:
+                        break
+                    cond = defs[0]
+                elif isinstance(cond, ast.Call) and isinstance(cond.func, ast.Attribute) and src(cond.func.value) == "self" and cond.func.attr in meths \
+                        and not cond.args:
+                    body = [s_ for s_ in meths[cond.func.attr].body if not (isinstance(s_, ast.Expr) and isinstance(s_.value, ast.Constant))]
+                    if len(body) == 1 and isinstance(body[0], ast.Return):
+                        cond = body[0].value
+                    else:
+                        break
+                else:
+                    break
+            atoms = {fld: "self.%s != %s" % (fld, src(defaults[fld])) for fld in w_fields}
+
+            def ev(e, val):
+                if isinstance(e, ast.BoolOp):
+                    vs = [ev(v, val) for v in e.values]
+                    return all(vs) if isinstance(e.op, ast.And) else any(vs)
+                if isinstance(e, ast.UnaryOp) and isinstance(e.op, ast.Not):
+                    return not ev(e.operand, val)
+                if isinstance(e, ast.Compare) and len(e.ops) == 1:
+                    l, r = src(e.left), src(e.comparators[0])
+                    for fld in w_fields:
+                        d = src(defaults[fld])
+                        if {l, r} == {"self." + fld, d}:
+                            if isinstance(e.ops[0], ast.NotEq):
+                                return val[fld]
+                            if isinstance(e.ops[0], ast.Eq):
+                                return not val[fld]
+                raise AnalysisError("%s: condition of the optional segment is not a boolean combination of <field> ==/!= <reader default>: %s"
+                                    % (qual, src(e)[:80]))
+            lossy = None
+            for bits in itertools.product((False, True), repeat=len(w_fields)):
+                val = dict(zip(w_fields, bits))
+                if not ev(cond, val) and any(bits):
+                    lossy = lossy or val
+            if lossy:
+                kept = [k for k, v in lossy.items() if v]
+                ctx.fail("Z6", seg["node"], qual, "if %s: ..." % src(seg["cond"])[:60],
+                         "the fields %s are written only when (%s); an object with %s set (different from what the reader fills in) and the other "
+                         "field(s) unset makes the condition false, nothing is written, and %s.deserialize restores %s: the value is lost on the "
+                         "round trip" % (", ".join(w_fields), src(cond)[:90], ", ".join(kept), cls,
+                                          ", ".join("%s = %s" % (k, src(defaults[k])) for k in kept)))
+            else:
+                ctx.ok("Z6", "%s:%d" % (ISO, seg["node"].lineno), "%s: optional segment {%s} is skipped only when every field equals the reader's default"
+                       % (qual, ", ".join(w_fields)))
+    if n == 0:
+        ctx.ok("Z6", ISO, "no optional (flag-controlled) segments in the object codecs", nontrivial=False)
+
+
+def z7_saved_files(prog, ctx):
+    """A run restarted from saved assignments only reads the files it was pointed to: nothing derived from args.read_assignments is ever
+    passed to a deleting call."""
+    from ..engine import taint
+    DSPM = "src/dataset_processor.py"
+    ps = prog.func(DSPM, "DatasetProcessor.process_sample")
+    deleters = {"remove", "unlink", "rmtree", "clean_locks"}
+    n = 0
+    reported = set()
+    for pth in flow.paths(ps):
+        pol = {}
+        feasible = True
+        for t, p_ in pth.conds():
+            for atom, ap in flow.conjuncts(t, p_):
+                k = src(atom)
+                if k in pol and pol[k] != ap:
+                    feasible = False
+                pol[k] = ap
+        if not feasible:
+            continue
+        hits = []
+
+        def look(st, env, hits=hits):
+            for c in (x for x in ast.walk(st) if isinstance(x, ast.Call)):
+                if (call_name(c) or "").split(".")[-1] in deleters:
+                    for a in c.args:
+                        if "saved-by-another-run" in taint.influence(a, env):
+                            hits.append((c, st))
+        taint.run(pth, {"self.args.read_assignments": {"saved-by-another-run"}}, on_stmt=look)
+        n += 1
+        for c, st in hits:
+            if id(c) in reported:
+                continue
+            reported.add(id(c))
+            ctx.fail("Z7", c, ps._qualname, src(c)[:90], "on the path {%s} this call deletes files whose names derive from args.read_assignments, "
+                     "i.e. the assignments saved by the run that is being reused: after the restarted run they are gone and cannot be reused again"
+                     % pth.describe()[:160])
+    if not reported:
+        ctx.ok("Z7", "%s:%d" % (DSPM, ps.lineno), "no deleting call on any of %d feasible paths of process_sample receives a name derived from "
+               "args.read_assignments" % n)
+    ctx.floor("Z7", "feasible paths of process_sample", n, 4)
+
+
 def run(prog, ctx):
     ctx.rule("Z1", "writer and reader of every codec pair reduce to the same wire-type tree, position by position, and "
                    "(where derivable) the same field name; the abridged reader consumes exactly ReadAssignment's tree; "
@@ -843,6 +968,13 @@ def run(prog, ctx):
     n_pk = z1_pickle_state(prog, ctx)
     pairs = z2_codecs(prog, ctx, wc)
     z3_fields(prog, ctx, wc, trees)
+    ctx.rule("Z7", "path-wise influence propagation in process_sample: no argument of a deleting call (os.remove, clean_locks, ...) depends on "
+                   "args.read_assignments on a feasible path (paths testing the same atom both ways are dropped)")
+    z7_saved_files(prog, ctx)
+    ctx.rule("Z6", "optional segments of an object codec (flag bit, then fields written only when it is set): the reader gives every such field a "
+                   "default in its else-branch, and over all truth assignments of the atoms `field != default` the writer's condition "
+                   "(helpers inlined) is false only when all atoms are false")
+    z6_optional(prog, ctx, wc)
     ctx.rule("Z4", "GeneInfo.deserialize: every derivation (obj.set_*() or the constructor) that consults a serialised field "
                    "(transitively through self-calls) runs after that field is restored / receives it as constructor argument")
     z4_geneinfo(prog, ctx)
